@@ -15,7 +15,8 @@ var LoadYamlPreferences = YamlPreferences{
 }
 
 type loadPrefs struct {
-	decoder Decoder
+	// a decoder keeps the state of the stream it reads: every load gets its own
+	newDecoder func() Decoder
 }
 
 func loadString(filename string) (*CandidateNode, error) {
@@ -117,7 +118,7 @@ func loadOperator(d *dataTreeNavigator, context Context, expressionNode *Express
 
 		filename := nameCandidateNode.Value
 
-		contentsCandidate, err := loadWithDecoder(filename, loadPrefs.decoder)
+		contentsCandidate, err := loadWithDecoder(filename, loadPrefs.newDecoder())
 		if err != nil {
 			return Context{}, fmt.Errorf("Failed to load %v: %w", filename, err)
 		}
